@@ -170,6 +170,11 @@ pub fn h_buffer_n3() {
 }
 
 #[no_mangle]
+pub fn h_graph_small() {
+    graph_scenario(2, 1, false, 2, false, false);
+}
+
+#[no_mangle]
 pub fn h_graph_n2() {
     graph_scenario(2, 1, false, 3, true, true);
 }
